@@ -261,6 +261,7 @@ def run(M, c):
     k = c["k"]
     if k == "tokens":
         for i in range(c["n"]):
+            M.progress()
             x, kind = _value(M, r)
             loc = r.choice(M.locs)
             M.current = {"k": "tok", "value": x.isoformat(), "zone": kind, "loc": loc}
@@ -293,6 +294,7 @@ def run(M, c):
         return
     if k == "formats":
         for i in range(c["n"]):
+            M.progress()
             x, kind = _value(M, r)
             loc = r.choice(M.locs)
             D = M.data[loc]
@@ -333,6 +335,7 @@ def run(M, c):
         return
     if k == "named":
         for i in range(c["n"]):
+            M.progress()
             x, kind = _value(M, r, r.choice(("utc", "fixed", "zone", "zoneodd")))
             n = dt.datetime(*fields(x))
             z, zz = ref_token(x, "Z", None), ref_token(x, "ZZ", None)
@@ -361,16 +364,18 @@ def run(M, c):
         return
     if k in ("roundtrip", "rtlocale"):
         for i in range(c["n"]):
+            M.progress()
             _roundtrip(M, r, localized=(k == "rtlocale"))
         return
     if k == "partial":
         for i in range(c["n"]):
+            M.progress()
             _partial(M, r)
         return
 
 
 DATE_FORMS = [("YYYY{s}MM{s}DD", None), ("DD{s}MM{s}YYYY", None), ("YYYY{s}M{s}D", "sep"), ("YYYY{s}DDDD", None), ("YY{s}MM{s}DD", "yy"),
-              ("Y{s}MM{s}DD", "sep"), ("YYYY{s}DDD", "sep")]
+              ("Y{s}MM{s}DD", "sep"), ("YYYY{s}DDD", "sep"), ("E YYYY{s}MM{s}DD", None), ("YYYY{s}MM{s}DD d", "wd"), ("E, DD{s}MM{s}YYYY", None)]
 LDATE_FORMS = ["dddd D MMMM YYYY", "ddd, D MMM YYYY", "MMMM D, YYYY", "D MMM YYYY", "YYYY MMMM DD", "dd DD MMM YYYY", "Do MMMM YYYY"]
 TIME_FORMS = [("HH{t}mm{t}ss", None), ("H{t}m{t}s", "sep"), ("hh{t}mm{t}ss A", None), ("h{t}mm{t}ss A", "sep"), ("HH{t}mm", "nosec")]
 FRACS = [("", 0), (".SSSSSS", 6), (".SSS", 3), (".S", 1), (",SSSSSS", 6), (" SSSSS", 5)]
@@ -470,7 +475,14 @@ def _roundtrip(M, r, localized):
     okf = got[0] == want[0] and (got[1] == want[1] or (not tzf))
     if not tzf:
         okf = got[0] == want[0] and y.timezone_name == x.timezone_name
-    M.check(mon, okf, f"C08/roundtrip:value:{esc}:{zsig}" + (":localized" if localized else ""), "from_format(format(x)) is not x", fmt=fmt, string=s,
+    vsig = f"C08/roundtrip:value:{esc}:{zsig}" + (":localized" if localized else "")
+    if not okf and dflag == "wd":
+        # mechanism classifier for the recorded finding: `d` is rendered 0=Sunday..6=Saturday but parsed as 0=Monday..6=Sunday,
+        # so the date moves to the next weekday inside its Monday-based week (+1 day, Sunday -> Monday six days back)
+        d0, d1 = dt.date(*want[0][:3]), dt.date(*got[0][:3])
+        if got[0][3:] == want[0][3:] and (got[1] == want[1] or tzf in ("", "z")) and (d1 - d0).days == (-6 if d0.weekday() == 6 else 1):
+            vsig = "C08/roundtrip:token-d:parsed-monday-based"
+    M.check(mon, okf, vsig, "from_format(format(x)) is not x", fmt=fmt, string=s,
             value=x.isoformat(), got=[list(got[0]), got[1]], expected=[list(want[0]), want[1]])
     M.cls(mon, dform if localized else dflag, tflag, nd, tzf, esc, kind, loc if localized else "")
     # a string that does not match must raise ValueError
